@@ -15,6 +15,7 @@ import (
 	"github.com/oasisprotocol/oasis-core/go/common/quantity"
 	"github.com/oasisprotocol/oasis-core/go/common/version"
 	"github.com/oasisprotocol/oasis-core/go/consensus/api/transaction"
+	stakingState "github.com/oasisprotocol/oasis-core/go/consensus/cometbft/apps/staking/state"
 	governance "github.com/oasisprotocol/oasis-core/go/governance/api"
 	registry "github.com/oasisprotocol/oasis-core/go/registry/api"
 	staking "github.com/oasisprotocol/oasis-core/go/staking/api"
@@ -194,9 +195,20 @@ func (w *World) BuildTx(op TxOp, v TxView, seq int) (*BuiltTx, error) {
 			}
 			to = w.Addr(op.To)
 		}
+		// Reclaim from an escrow account in which the signer actually holds shares, when there is
+		// one (starting the search at the symbolic target).
 		shares := quantity.NewQuantity()
-		if toAcct := v.Account(to); toAcct != nil {
-			shares = toAcct.Escrow.Active.TotalShares.Clone()
+		ist := stakingState.NewImmutableState(v.Tree())
+		for i := 0; i < w.NumSigners(); i++ {
+			cand := op.To + i
+			if op.From%w.NumSigners() < w.K.Anchors && cand%w.NumSigners() < w.K.Anchors {
+				continue
+			}
+			if d, err := ist.Delegation(context.Background(), from, w.Addr(cand)); err == nil && d != nil && !d.Shares.IsZero() {
+				to = w.Addr(cand)
+				shares = d.Shares.Clone()
+				break
+			}
 		}
 		tx = staking.NewReclaimEscrowTx(nonce, fee, &staking.ReclaimEscrow{Account: to, Shares: resolveAmount(op.Amt, shares, 1)})
 	case "allow":
